@@ -38,7 +38,7 @@ def parse_iso(s):
 PROFILES = [
     "plain", "ties", "limits_type", "limits_seg", "limits_both", "scarce_depots", "no_depots_key",
     "empty_depots", "multi_cycle", "forbid", "multi_type", "coupled", "hitchhike", "nonmetric",
-    "two_days", "tiny", "tight", "bigshunt", "multi_cycle", "multi_cycle", "mc_overflow",
+    "two_days", "tiny", "tight", "bigshunt", "multi_cycle", "multi_cycle", "mc_overflow", "depot_contention",
 ]
 
 
@@ -51,11 +51,18 @@ def gen_instance(seed, index, profile=None, max_trips=10, allow_weird=False):
     overflow_cycles = p == "mc_overflow"   # several rotation cycles of vehicles living at the overflow depot
     if overflow_cycles:
         p = "multi_cycle"
+    # several types compete for a small depot that is nearest by distance but not by travel time (the flow
+    # chooses by time, improve_depots by distance, so vehicles of different types move in together)
+    contention = p == "depot_contention"
+    if contention:
+        p = "nonmetric"
 
     ntypes = 1
-    if p == "multi_type" or rng.random() < 0.25:
+    if p == "multi_type" or contention or rng.random() < 0.25:
         ntypes = rng.choice([2, 3])
     nloc = rng.choice([2, 3, 3, 4])
+    if contention:
+        nloc = rng.choice([3, 4, 4])
     if p == "tiny":
         nloc = 2
         ntypes = 1
@@ -95,6 +102,16 @@ def gen_instance(seed, index, profile=None, max_trips=10, allow_weird=False):
         unit_d = rng.choice([1000, 5000, 8000])
         dur = [[abs(pos[i] - pos[j]) * unit_t for j in range(nloc)] for i in range(nloc)]
         dist = [[abs(pos[i] - pos[j]) * unit_d for j in range(nloc)] for i in range(nloc)]
+    if contention:
+        # location 0 hosts the small depot: close to everything in metres, slow to reach; location 1 hosts
+        # the big depot: far away in metres, quick to reach
+        for x in range(2, nloc):
+            for (a, b) in ((0, x), (x, 0)):
+                dist[a][b] = rng.choice([500, 1000, 2000])
+                dur[a][b] = rng.choice([1800, 2700, 3600])
+            for (a, b) in ((1, x), (x, 1)):
+                dist[a][b] = rng.choice([20000, 40000, 60000])
+                dur[a][b] = rng.choice([300, 600])
     I["dhDur"] = dur
     I["dhDist"] = dist
     I["shuntMin"] = shunt_min
@@ -111,10 +128,14 @@ def gen_instance(seed, index, profile=None, max_trips=10, allow_weird=False):
     horizon = 86400 if p != "two_days" else 2 * 86400
     routes = []
     nroutes = rng.randint(1, max(1, min(4, ntrips_target)))
+    if contention:
+        nroutes = max(nroutes, ntypes)
     for r in range(nroutes):
         ty = types[rng.randrange(ntypes)]["id"] if r >= ntypes else types[r % ntypes]["id"]
         nseg = rng.choice([1, 1, 1, 2, 2, 3])
         cur = rng.randrange(nloc)
+        if contention:
+            cur = rng.randrange(2, nloc)      # first trips start away from both depots
         segs = []
         for s in range(nseg):
             nxt = rng.choice([x for x in range(nloc) if x != cur] + ([cur] if rng.random() < 0.1 else []))
@@ -129,7 +150,7 @@ def gen_instance(seed, index, profile=None, max_trips=10, allow_weird=False):
                          "dist": dd, "limit": lim})
             cur = nxt
         routes.append({"id": "r%d" % r, "ty": ty, "segs": segs})
-    if p == "multi_type":
+    if p == "multi_type" or contention:
         # make sure at least two types have routes
         for t in range(min(ntypes, len(routes))):
             routes[t]["ty"] = types[t]["id"]
@@ -232,9 +253,15 @@ def gen_instance(seed, index, profile=None, max_trips=10, allow_weird=False):
         given = True
     else:
         given = rng.random() < 0.6
-    I["depotsGiven"] = given
+    I["depotsGiven"] = given or contention
     depots = []
-    if given and p != "empty_depots" and not (overflow_cycles and rng.random() < 0.5):
+    if contention:
+        given = True
+        for d, li in enumerate([0, 1]):
+            small = d == 0
+            depots.append({"id": "D%d" % d, "loc": locs[li], "cap": 1 if small else 8,
+                           "allowed": [{"ty": t["id"], "cap": rng.choice([-1, 1]) if small else -1} for t in types]})
+    elif given and p != "empty_depots" and not (overflow_cycles and rng.random() < 0.5):
         nd = rng.choice([1, 2, 2, 3])
         for d in range(nd):
             cap = rng.choice([0, 1, 2, 3, 5, 8])
